@@ -638,8 +638,27 @@ fn evidence_json(
             J::s("the library has no clock; logical time = driver calls (ticks)"),
         )
         .set("fault_kinds_fired", faults)
-        .set("probes", probes)
-        .set("probes_at_zero", J::Arr(zero))
+        .set(
+            "probes",
+            if matches!(prop, Prop::C13 | Prop::C15) {
+                // these two families judge histories only (fault-free vs faulted run, solo vs
+                // interleaved run); no reference run, hence no semantic probes
+                J::obj().set(
+                    "note",
+                    J::s("not collected: the oracles of this family are history-only, no reference run is made; reach is reported by fault_kinds_fired and behaviour_signatures"),
+                )
+            } else {
+                probes
+            },
+        )
+        .set(
+            "probes_at_zero",
+            if matches!(prop, Prop::C13 | Prop::C15) {
+                J::Arr(vec![])
+            } else {
+                J::Arr(zero)
+            },
+        )
         .set("behaviour_signatures", J::u(stats.signatures.len()))
         .set(
             "traces_validated_against_impl",
